@@ -274,11 +274,9 @@ H("C17", "cdbc", _D, "quick", "C17.b header the writer emits is accepted by the 
   ["writer::DbcWriter::write_records", "writer::DbcWriter::build_string_block", "header::DbcHeader::parse", "schema::Schema::validate", "schema::Schema::record_size"],
   "schema of 1/2/3 fields, each field type symbolic, each scalar or array of 1..3 (symbolic)", "<= 3 fields, array sizes <= 3, zero records",
   stubs=[FMT, RS], timeout=2400)
-H("C17", "cdbc", _D, "thorough", "C17.c strings survive write->parse (incl. a string referenced twice), each string stored once, size law with a string block",
-  ["c17c_strings_roundtrip_with_duplicate"], ["writer::DbcWriter::{write_records,build_string_block,write_record,write_value}", "parser::DbcParser::{parse_bytes,with_schema,parse_records}",
-   "parser::RecordSet::get_string", "stringblock::StringBlock::{parse,get_string}"],
-  "three records with one string field referencing the concrete strings a, a, b", "3 records, 1 string field",
-  stubs=[FMT, RS, "std::collections::HashMap in writer.rs -> association-list model harness/env/vmap.rs (scratch-copy rewrite; same insert/get/contains_key semantics)", "std::str::from_utf8 -> accepts the (concrete ASCII) bytes without the validation loops"], timeout=2400)
+# c17c_strings_roundtrip_with_duplicate (three records, a repeated string) is NOT registered: even with HashMap replaced by the
+# association-list model and UTF-8 validation stubbed it does not finish in 40 minutes (write_records clones the schema and
+# resolves every string reference through heap-resident data); string de-duplication stays outside the C17 claim.
 H("C17", "cdbc", _D, "quick", "canary", ["c17_canary"], ["field_parser::parse_field_value"], "vacuity twin", "-", expect="canary", stubs=[FMT, RS])
 H("C05", "cdbc", _D, "quick", "C05.dbc header parsers and string lookups are total (no panic/overflow), derived offsets do not overflow",
   ["c05_dbc_header_total", "c05_dbc_wdb2_header_total", "c05_dbc_wdb5_header_total", "c05_dbc_string_block_total"],
@@ -452,8 +450,8 @@ H("C03", "mpq", _DP, "quick", "canary", ["c03e_canary"], ["compression::methods:
 
 # ------------------------------------------------------------------------------- C10.d sector checksum enforcement
 H("C10", "mpq", _BP, "quick", "C10.d a single-byte change anywhere in a checksummed single-unit file's data or checksum is detected (or the content is unchanged); the intact file verifies",
-  ["c10d_single_byte_fault_detected", "c10d_intact_file_verifies", "c10d_accept_implies_checksum_matches"], _pathfns + ["adler2::adler32_slice"],
-  "file content [u8; 6] symbolic; fault offset within data+checksum (10 bytes) and XOR mask != 0 symbolic; third harness: 4-byte file, one data byte altered and the stored checksum replaced by 4 arbitrary bytes", "6-byte (4-byte) single-unit file",
+  ["c10d_single_byte_fault_detected", "c10d_intact_file_verifies"], _pathfns + ["adler2::adler32_slice"],
+  "file content [u8; 6] symbolic; fault offset within data+checksum (10 bytes) and XOR mask != 0 symbolic; ", "6-byte single-unit file",
   stubs=[FMT, MEMFILE], timeout=1200)
 
 # ------------------------------------------------------------------------------- C08.d chain ordering step
@@ -494,6 +492,11 @@ H("C05", "mpq", _AT, "quick", "C05.mpq.5 (attributes) parser is total on hostile
 # c02d_builder_to_reference_ms_* (builder -> reference reader of the multi-sector layout) are NOT registered:
 # 20 min time-out / memory cap on this machine (512-byte sector copies + a data-dependent raw/compressed
 # decision per sector); the sector layout of compressed multi-sector files stays outside the C02 claim.
+
+H("C10", "mpq", _BP, "thorough", "C10.d acceptance implies the checksum matches: a data byte altered and the stored checksum replaced by arbitrary bytes - whenever the read succeeds the stored checksum is the Adler-32 of what is returned",
+  ["c10d_accept_implies_checksum_matches"], _pathfns + ["adler2::adler32_slice"],
+  "2-byte file content, fault offset/mask and 4 replacement checksum bytes symbolic", "2-byte single-unit file; reference Adler-32 in closed form",
+  stubs=[FMT, MEMFILE], timeout=2400)
 
 
 # =============================================================================== per-property fragments
